@@ -1,5 +1,6 @@
 import Orx.KSRun
-import Orx.GenThms
+import Orx.GenThms.Slice
+import Orx.GenThms.Range
 /-! # C10 into_seq_iter returns exactly the undelivered remainder, in order -/
 namespace Orx.Props.C10
 open Orx Orx.KS
